@@ -396,7 +396,8 @@ def replay(rec, ctx):
 
 CFG = """SPECIFICATION Spec
 CONSTANTS
-  Kinds = {"adf11", "adf15", "adf2x", "adf12"}
+  Kinds = {{"adf11", "adf15", "adf2x", "adf12"}}
+  Deep = {deep}
 INVARIANT ChargesDistinct
 INVARIANT ValInjective
 INVARIANT EmitCase
@@ -405,7 +406,7 @@ INVARIANT EmitCase
 
 def run(v):
     shutil.rmtree(_HOME / ".cherab", ignore_errors=True)
-    res = core.run_tlc("AdfFormat", CFG, workers=1, seed=v.seed, timeout=1800)
+    res = core.run_tlc("AdfFormat", CFG.format(deep="TRUE" if v.tier == "thorough" else "FALSE"), workers=1, seed=v.seed, timeout=3000)
     core.tlc_must_pass(res, "AdfFormat")
     v.add_tlc(res, "AdfFormat")
     cases = [r for r in res.records if "doc" in r]
